@@ -3,6 +3,7 @@ import YaqsModel.Model.Pipeline
 import YaqsModel.Model.SJump
 import YaqsModel.Model.Grid
 import YaqsModel.Model.Storage
+import YaqsModel.Model.LocalOp
 /-!
 line protocol for the time-step pipelines, the scheduled-jump matching rule and the time grid
 
@@ -28,6 +29,14 @@ line protocol for the time-step pipelines, the scheduled-jump matching rule and 
         → allocation as for `stinit`, `T` stored table (row-major), `R` reduction; `err broadcast <got> <want>` if a row does not fit
   stweak | slot | slot …   (slot = `none`, `empty`, or `k:v k:v …`)   → `ok k:v …` / `err assertFirstNone`   (`aggregate_measurements`)
   strunweak <shots> <noisefree> | dict of trajectory 0 | …            → `<None in measurements> S slots… R ok k:v …` / `indexError`
+
+  local operator application (`Model/LocalOp.lean`; tensor := `d l r` + d·l·r pairs `re im` in C order; matrix := `m n` + m·n pairs):
+  lo1 OP T                 → `oe.contract("ab, bcd->acd", OP, T)`                                   (`applyOne`)
+  lomerge A B              → `merge_mps_tensors(A, B)`                                              (`mergeKet2`)
+  lo2 OP A B               → the merged tensor with OP contracted in (input of `split_mps_tensor`)  (`applyTwoMerged`)
+  lotheta dL dR T          → the matrix `split_mps_tensor(T, …, [dL, dR])` hands to the SVD          (`splitTheta`)
+  lovec1 site OP N T…      → `to_vec()` of the chain after OP was contracted into `site`             (`applyOne`, `Mps.toVec`)
+  lovecf i j OP0 OP1 N T…  → `to_vec()` after OP0 on site i and OP1 on site j (long-range pair)       (`applyFactors`)
 
 backends: tjm2 tjm1 mcwf lindblad tjm2old.  Booleans are 1/0.  Numbers of `match…firing` are exact rationals.
 -/
@@ -325,7 +334,121 @@ def handleStorage (line : String) : Option String :=
       | _, _, _ => "bad-op")
   | _ => none
 
+/-! ### local operator application (`Model/LocalOp.lean`) -/
+namespace LocalOpDriver
+open Yaqs.Mps Yaqs.LocalOp
+
+abbrev P := StateT (List String) Option
+
+def tok : P String := fun s => match s with
+  | [] => none
+  | w :: rest => some (w, rest)
+
+def pNat : P Nat := do
+  let w ← tok
+  match w.toNat? with
+  | some n => pure n
+  | none => failure
+
+def pC : P Mps.CRat := do
+  let a ← tok
+  let b ← tok
+  match parseRat? a, parseRat? b with
+  | some x, some y => pure ⟨x, y⟩
+  | _, _ => failure
+
+def pMany {α} (p : P α) : Nat → P (List α)
+  | 0 => pure []
+  | n + 1 => do
+    let a ← p
+    let as ← pMany p n
+    pure (a :: as)
+
+def pMat : P Mat := do
+  let m ← pNat
+  let n ← pNat
+  if m = 0 ∨ n = 0 ∨ m * n > 100000 then failure
+  pMany (pMany pC n) m
+
+def pTensor : P Tensor := do
+  let d ← pNat
+  let l ← pNat
+  let r ← pNat
+  if d = 0 ∨ l = 0 ∨ r = 0 ∨ d * l * r > 100000 then failure
+  pMany (pMany (pMany pC r) l) d
+
+def pTensors : P (List Tensor) := do
+  let n ← pNat
+  if n = 0 ∨ n > 64 then failure
+  pMany pTensor n
+
+def pEnd : P Unit := fun s => match s with
+  | [] => some ((), [])
+  | _ => none
+
+def runP {α} (p : P α) (ws : List String) : Option α := (p ws).map (·.1)
+
+def showC (c : Mps.CRat) : String := showRat c.re ++ " " ++ showRat c.im
+
+def showMatBody (m : Mat) : String := joinWith " " (m.flatten.map showC)
+
+def showMat (m : Mat) : String := s!"{nrows m} {ncols m} " ++ showMatBody m
+
+def showTensor (t : Tensor) : String := s!"{physDim t} {leftDim t} {rightDim t} " ++ joinWith " " (t.map showMatBody)
+
+def showVec (v : List (Option Mps.CRat)) : String :=
+  joinWith " " (v.map fun o => match o with | some c => showC c | none => "none")
+
+/-- the operator must be square with one row per physical index it acts on -/
+def squareOf (op : Mat) (d : Nat) : Bool := op.length = d && op.all (fun row => row.length = d)
+
+def handle (ws : List String) : Option String :=
+  match ws with
+  | "lo1" :: rest =>
+    some (match runP (do let op ← pMat; let t ← pTensor; pEnd; pure (op, t)) rest with
+      | some (op, t) => if squareOf op (physDim t) then showTensor (applyOne op t) else "bad-op"
+      | none => "bad-op")
+  | "lomerge" :: rest =>
+    some (match runP (do let a ← pTensor; let b ← pTensor; pEnd; pure (a, b)) rest with
+      | some (a, b) => if rightDim a = leftDim b then showTensor (mergeKet2 a b) else "bad-op"
+      | none => "bad-op")
+  | "lo2" :: rest =>
+    some (match runP (do let op ← pMat; let a ← pTensor; let b ← pTensor; pEnd; pure (op, a, b)) rest with
+      | some (op, a, b) =>
+        if rightDim a = leftDim b ∧ squareOf op (physDim a * physDim b) then showTensor (applyTwoMerged op a b) else "bad-op"
+      | none => "bad-op")
+  | "lotheta" :: rest =>
+    some (match runP (do let dl ← pNat; let dr ← pNat; let t ← pTensor; pEnd; pure (dl, dr, t)) rest with
+      | some (dl, dr, t) => if dl * dr = physDim t then showMat (splitTheta dl dr t) else "bad-op"
+      | none => "bad-op")
+  | "lovec1" :: rest =>
+    some (match runP (do let i ← pNat; let op ← pMat; let ts ← pTensors; pEnd; pure (i, op, ts)) rest with
+      | some (i, op, ts) =>
+        match ts[i]? with
+        | some t =>
+          if ts.all wellShaped ∧ squareOf op (physDim t) then showVec (toVec (ts.set i (applyOne op t))) else "bad-op"
+        | none => "bad-op"
+      | none => "bad-op")
+  | "lovecf" :: rest =>
+    some (match runP (do let i ← pNat; let j ← pNat; let o0 ← pMat; let o1 ← pMat; let ts ← pTensors; pEnd
+                         pure (i, j, o0, o1, ts)) rest with
+      | some (i, j, o0, o1, ts) =>
+        match ts[i]?, ts[j]? with
+        | some a, some b =>
+          if i < j ∧ ts.all wellShaped ∧ squareOf o0 (physDim a) ∧ squareOf o1 (physDim b) then
+            let ab := applyFactors o0 o1 a b
+            showVec (toVec ((ts.set i ab.1).set j ab.2))
+          else "bad-op"
+        | _, _ => "bad-op"
+      | none => "bad-op")
+  | _ => none
+
+end LocalOpDriver
+
 def handleAll (line : String) : String :=
+  match LocalOpDriver.handle (words line) with
+  | some r => r
+  | none =>
   match handleStorage line with
   | some r => r
   | none => handle line
